@@ -30,9 +30,21 @@ case_strategy = st.fixed_dictionaries({
 })
 
 
+def cells():
+    """The finite configuration space, enumerated completely in the thorough tier (data per cell is generated)."""
+    for alg in gk.JWS_ALGS:
+        for ser in jp.SERS:
+            for b64 in ([None] if ser == "general" else [None, True, False]):
+                for keymode in jp.KEYMODES:
+                    yield (alg, ser, b64, keymode)
+
+
 def shards(tier):
     n = 16
-    return [(f"rt{i:02d}", {"i": i}) for i in range(n)]
+    out = [(f"rt{i:02d}", {"i": i}) for i in range(n)]
+    if tier == "thorough":
+        out += [(f"cells{i:02d}", {"part": "cells", "i": i, "n": 16}) for i in range(16)]
+    return out
 
 
 def _hdr_eq(got, given, allow_kid, kid_expected, where, f, tag):
@@ -148,6 +160,15 @@ def run_shard(ctx, spec):
                          "payload_hex": plan["payload_hex"][:60], "keymode": case["keymode"], "forms": [case["form_sign"], case["form_verify"]]})
         for k, w in f.items():
             ctx.finding(k, w, case)
+    if spec.get("part") == "cells":
+        for j, (alg, ser, b64, keymode) in enumerate(cells()):
+            if j % spec["n"] != spec["i"] or ctx.expired():
+                continue
+            strat = st.fixed_dictionaries({"plan": jp.plans(sers=(ser,), algs=[alg], b64_choices=[b64], max_members=2), "keymode": st.just(keymode),
+                                           "form_sign": st.sampled_from(KEYFORMS), "form_verify": st.sampled_from(KEYFORMS)})
+            drive(ctx, f"cell-{alg}-{ser}-{b64}-{keymode}", strat, body, 10)
+            ctx.count("cells-enumerated")
+        return
     drive(ctx, "rt", case_strategy, body, 400 if ctx.tier == "quick" else 4000)
 
 
